@@ -476,6 +476,91 @@ def ob_split_join(chk, P, maxlen):
         ob.absorb(ex)
 
 
+def py_truncatewords(s, n, ell):
+    """reference: words are the pieces between single spaces; more than n words -> the first n joined by one space, then the ellipsis; negative n = no limit"""
+    if n < 0: return s
+    words = s.split(' ')
+    if len(words) <= n: return s
+    return ' '.join(words[:n]) + ell
+
+
+def ob_truncatewords(chk, P, maxlen):
+    with chk.obligation('truncatewords/strings', 'truncatewords: a string of at most `length` space-separated words is returned unchanged, a longer one is cut to its first `length` words '
+                        '(joined by one space) followed by the ellipsis; no panic',
+                        {'string': f'0..{maxlen} characters, each any Unicode scalar value', 'length': 'any i64', 'ellipsis': "absent ('...') or a string of 0..2 characters"}) as ob:
+        ex = Executor(P, models_with([])); ex.seed = chk.seed; ex.max_steps = 40000
+        fn = P.find_method('TruncateWordsFilter', 'evaluate', 'Filter', 'lib')
+        for n in range(maxlen + 1):
+            for ell_n in (None, 0, 2):
+                st = State()
+                cs = sym_string(st, n); es = sym_string(st, ell_n or 0, 'e')
+                ln = z3.BitVec('len', 64)
+                args = Adt('TruncateWordsArgs', None, [Some(expr_stub(value_scalar(scalar_int(Int(ln, 'i64'))), 'length')),
+                                                       Some(expr_stub(str_value(es), 'ellipsis')) if ell_n is not None else NONE], ['length', 'ellipsis'])
+                ell = list(es) if ell_n is not None else [ord('.')] * 3
+                for s2, kind, val in ex.run(fn, [st.ref(Adt('TruncateWordsFilter', None, [args], ['args'])), st.ref(str_value(cs)), st.ref(Opaque(('RT',)))], st):
+                    ob.paths += 1; ob.reached()
+                    def report(role, what, m):
+                        s = model_string(m, cs); l = m.eval(ln, model_completion=True).as_signed_long(); e = model_string(m, es) if ell_n is not None else '...'
+                        exp = py_truncatewords(s, l, e)
+                        sc = {'kind': 'template', 'template': '[{{ s | truncatewords: l' + (', e' if ell_n is not None else '') + ' }}]', 'globals': {'s': s, 'l': l, 'e': e}}
+                        ob.violation(role, f'{what}: {s!r} | truncatewords: {l}' + (f', {e!r}' if ell_n is not None else ''), {'string': s, 'length': l, 'ellipsis': e, 'expected': exp}, sc,
+                                     lambda r, x=exp: r.get('outcome') != 'ok' or r.get('output') != '[' + x + ']')
+                    if kind == 'panic':
+                        report('truncatewords/panic', f'truncatewords panics ({val})', ob.decide(ex, s2.conds, z3.BoolVal(True))); continue
+                    res = result_string(s2, val)
+                    if res is None:
+                        report('truncatewords/error', f'truncatewords fails: {val}', ob.decide(ex, s2.conds, z3.BoolVal(True))); continue
+                    good = []
+                    for pat in itertools.product((False, True), repeat=n):          # which characters are spaces
+                        shape = z3.And(*[(c == 32) if sp else (c != 32) for c, sp in zip(cs, pat)]) if n else z3.BoolVal(True)
+                        words, cur = [], []
+                        for c, sp in zip(cs, pat):
+                            if sp: words.append(cur); cur = []
+                            else: cur.append(c)
+                        words.append(cur)
+                        alts = [z3.And(z3.Or(ln < 0, ln >= len(words)), eq_chars(res, list(cs)))]
+                        for k in range(len(words)):
+                            exp = []
+                            for i, w in enumerate(words[:k]):
+                                if i: exp.append(32)
+                                exp += w
+                            alts.append(z3.And(ln == k, eq_chars(res, exp + ell)))
+                        good.append(z3.And(shape, z3.Or(*alts)))
+                    m = ob.decide(ex, s2.conds, z3.Not(z3.Or(*good)))
+                    if m is not None:
+                        got = ''.join(chr(m.eval(ch_expr(c), model_completion=True).as_long()) for c in res)
+                        report('truncatewords/wrong-result', f'truncatewords returns {got!r}', m)
+                ob.sample({'len': n, 'ellipsis_len': ell_n})
+        ob.absorb(ex)
+
+
+def ob_strip_law(chk, P, maxlen):
+    with chk.obligation('strip-law/strings', 'strip equals lstrip applied to the result of rstrip (the three real bodies run on the same symbolic string)',
+                        {'input': f'0..{maxlen} characters, each any Unicode scalar value'}) as ob:
+        ex = Executor(P, models_with([])); ex.seed = chk.seed; ex.max_steps = 40000
+        fs = {k: P.find_method(k, 'evaluate', 'Filter', 'lib') for k in ('StripFilter', 'LstripFilter', 'RstripFilter')}
+        for n in range(maxlen + 1):
+            st = State(); cs = sym_string(st, n)
+            for s1, k1, v1 in ex.run(fs['StripFilter'], [st.ref(Adt('StripFilter', None, [])), st.ref(str_value(cs)), st.ref(Opaque(('RT',)))], st):
+                r1 = result_string(s1, v1) if k1 == 'ret' else None
+                for s2, k2, v2 in ex.run(fs['RstripFilter'], [s1.ref(Adt('RstripFilter', None, [])), s1.ref(str_value(cs)), s1.ref(Opaque(('RT',)))], s1.clone()):
+                    r2 = result_string(s2, v2) if k2 == 'ret' else None
+                    if r2 is None: continue
+                    for s3, k3, v3 in ex.run(fs['LstripFilter'], [s2.ref(Adt('LstripFilter', None, [])), s2.ref(str_value(r2)), s2.ref(Opaque(('RT',)))], s2.clone()):
+                        ob.paths += 1; ob.reached()
+                        r3 = result_string(s3, v3) if k3 == 'ret' else None
+                        bad = z3.BoolVal(True) if (r1 is None or r3 is None) else z3.Not(eq_chars(r1, r3))
+                        m = ob.decide(ex, s3.conds, bad)
+                        if m is not None:
+                            s = model_string(m, cs)
+                            ob.violation('strip-law/differs', f'strip differs from lstrip after rstrip on {s!r}', {'input': s},
+                                         {'kind': 'template', 'template': '[{{ s | strip }}][{{ s | rstrip | lstrip }}]', 'globals': {'s': s}},
+                                         lambda r, s=s: r.get('outcome') != 'ok' or r.get('output') != '[' + s.strip(WS_CHARS) + '][' + s.strip(WS_CHARS) + ']')
+            ob.sample({'len': n})
+        ob.absorb(ex)
+
+
 def token_of(v):
     return value_token(v)
 
@@ -543,4 +628,6 @@ def run(chk):
     ob_size(chk, P, 4)
     ob_default(chk, P, 3)
     ob_split_join(chk, P, 4 if chk.tier == 'quick' else 5)
+    ob_truncatewords(chk, P, 5 if chk.tier == 'quick' else 6)
+    ob_strip_law(chk, P, 4 if chk.tier == 'quick' else 5)
     ob_filter_chain(chk, P)
